@@ -93,7 +93,9 @@ def build_gram(setname):
     jobs.append((['g++'] + [f if f != '-O1' else '-O2' for f in GRAM_FLAGS] + ['-c', os.path.join(VERIF, 'engines', 'gram_main.cpp'), '-o', os.path.join(tmp, 'gram_main.o')], os.path.join(tmp, 'main.log')))
     failed = compile_many(jobs)
     if failed:
-        return ('COMPILE-FAIL', open(failed[0]).read()[-3000:])
+        msg = open(failed[0]).read()[-3000:]
+        shutil.rmtree(tmp, ignore_errors=True)
+        return ('COMPILE-FAIL', msg)
     r = sh(['g++', '-o', os.path.join(tmp, 'gram')] + sorted(glob.glob(os.path.join(tmp, '*.o'))))
     if r.returncode != 0: harness_error('link failed: ' + r.stderr[-2000:])
     for f in glob.glob(os.path.join(tmp, '*.o')) + glob.glob(os.path.join(tmp, 'frames_*.cpp')): os.remove(f)
